@@ -208,6 +208,74 @@ inline void Sweep::unified_neighbours()
          ++k;
       }
    }
+   // operand TWINS: two distinct nodes of one kind (two place-holders for an unknown bound, two classes without a name, two
+   // literals spelled alike, a declaration and its redeclaration ...) handed in turn to every unifying constructor that takes such
+   // an operand: x1, x2, x1 again.  A constructor that tells operands apart by kind, spelling or structure instead of by
+   // identity answers the second request with the node built for the first, which then reports an operand it was not built from.
+   {
+      auto ts = P.distinct(plain, 2);
+      impl::Warehouse<Type> w; w.push_back(*ts[0]); auto& src = lex.get_product(w);
+      auto& sp7 = lex.get_string(u8"7");
+      std::vector<std::tuple<std::string, const Expr*, const Expr*>> xtw;
+      xtw.emplace_back("untyped phantoms", lex.make_phantom(), lex.make_phantom());
+      xtw.emplace_back("typed phantoms", lex.make_phantom(*ts[0]), lex.make_phantom(*ts[0]));
+      xtw.emplace_back("untyped and typed phantom", lex.make_phantom(), lex.make_phantom(*ts[1]));
+      xtw.emplace_back("literals spelled alike", &lex.get_literal(L.int_type(), sp7), &lex.get_literal(L.long_type(), sp7));
+      xtw.emplace_back("id-expressions of one name", lex.make_id_expr(*P.idents[0], L.int_type()), lex.make_id_expr(*P.idents[0], L.int_type()));
+      xtw.emplace_back("symbols of one name", &lex.get_symbol(*P.idents[1], L.int_type()), &lex.get_symbol(*P.idents[1], L.long_type()));
+      xtw.emplace_back("truth values", &L.true_value(), &L.false_value());
+      xtw.emplace_back("declaration and redeclaration", P.vars[0], P.vars[4]);
+      xtw.emplace_back("operations with the same operand", lex.make_address(*P.exprs[0]), lex.make_address(*P.exprs[0]));
+      xtw.emplace_back("empty expression lists", lex.make_expr_list(), lex.make_expr_list());
+      for (auto& [what, x1, x2] : xtw) {
+         if (x1 == x2) continue;
+         for (const Expr* x : { x1, x2, x1 }) {
+            const std::string tag = "(twins: " + what + ")";
+            auto* ar = &lex.get_array(*ts[0], *x); add_node("get_array" + tag, ar, Category_code::Array, [ar, a = ts[0], x](Ck& c) { c.same("element_type", &ar->element_type(), a); c.same("bound", &ar->bound(), x); }, false);
+            auto* at = &lex.get_as_type(*x); add_node("get_as_type" + tag, at, Category_code::As_type, [at, x](Ck& c) { c.same("expr", &at->expr(), x); }, false);
+            auto* fn = &lex.get_function(src, *ts[1], *x); add_node("get_function(s,t,e)" + tag, fn, Category_code::Function, [fn, sp = &src, t = ts[1], x](Ck& c) { c.same("source", &fn->source(), sp); c.same("target", &fn->target(), t); c.same("throws", &fn->throws(), x); }, false);
+            auto* al = lex.make_expr_list(); al->push_back(P.exprs[1]);
+            auto* ti = &lex.get_template_id(*x, *al); add_node("get_template_id" + tag, ti, Category_code::Template_id, [ti, x](Ck& c) { c.same("template_name", &ti->template_name(), x); }, false);
+            ++twin_requests;
+         }
+      }
+      std::vector<std::tuple<std::string, const Type*, const Type*>> ttw;
+      auto& greg = *unit.global_region();
+      ttw.emplace_back("classes without a name", lex.make_class(greg), lex.make_class(greg));
+      {  auto* c1 = lex.make_class(*P.regions[1]); auto* c2 = lex.make_class(*P.regions[2]); c1->id = P.idents[2]; c2->id = P.idents[2]; ttw.emplace_back("classes of one name in two regions", c1, c2); }
+      ttw.emplace_back("class and union", lex.make_class(greg), lex.make_union(greg));
+      ttw.emplace_back("enumerations", lex.make_enum(greg, Enum::Kind::Scoped), lex.make_enum(greg, Enum::Kind::Scoped));
+      ttw.emplace_back("namespaces", lex.make_namespace(greg), lex.make_namespace(greg));
+      ttw.emplace_back("closures", lex.make_closure(greg), lex.make_closure(greg));
+      ttw.emplace_back("auto place-holders", &lex.get_auto(), &lex.get_auto());
+      ttw.emplace_back("decltypes of one expression", &lex.get_decltype(*P.exprs[2]), &lex.get_decltype(*P.exprs[2]));
+      ttw.emplace_back("arrays of unknown bound", &lex.get_array(*ts[1], *lex.make_phantom()), &lex.get_array(*ts[1], *lex.make_phantom()));
+      ttw.emplace_back("as-types of twin expressions", &lex.get_as_type(*std::get<1>(xtw[4])), &lex.get_as_type(*std::get<2>(xtw[4])));
+      for (auto& [what, t1, t2] : ttw) {
+         if (t1 == t2) continue;
+         for (const Type* t : { t1, t2, t1 }) {
+            const std::string tag = "(twins: " + what + ")";
+            auto* p = &lex.get_pointer(*t); add_node("get_pointer" + tag, p, Category_code::Pointer, [p, t](Ck& c) { c.same("points_to", &p->points_to(), t); }, false);
+            auto* r = &lex.get_reference(*t); add_node("get_reference" + tag, r, Category_code::Reference, [r, t](Ck& c) { c.same("refers_to", &r->refers_to(), t); }, false);
+            auto* rr = &lex.get_rvalue_reference(*t); add_node("get_rvalue_reference" + tag, rr, Category_code::Rvalue_reference, [rr, t](Ck& c) { c.same("refers_to", &rr->refers_to(), t); }, false);
+            auto* q = &lex.get_qualified(Qualifiers(1), *t); add_node("get_qualified" + tag, q, Category_code::Qualified, [q, t](Ck& c) { c.same("main_variant", &q->main_variant(), t); c.eq("qualifiers", (long long)q->qualifiers(), 1); }, false);
+            auto* ar = &lex.get_array(*t, *P.exprs[3]); add_node("get_array(element)" + tag, ar, Category_code::Array, [ar, t, x = P.exprs[3]](Ck& c) { c.same("element_type", &ar->element_type(), t); c.same("bound", &ar->bound(), x); }, false);
+            auto* pm = &lex.get_ptr_to_member(*t, *ts[0]); add_node("get_ptr_to_member(containing)" + tag, pm, Category_code::Ptr_to_member, [pm, t, b = ts[0]](Ck& c) { c.same("containing_type", &pm->containing_type(), t); c.same("member_type", &pm->member_type(), b); }, false);
+            auto* pn = &lex.get_ptr_to_member(*ts[0], *t); add_node("get_ptr_to_member(member)" + tag, pn, Category_code::Ptr_to_member, [pn, t, a = ts[0]](Ck& c) { c.same("containing_type", &pn->containing_type(), a); c.same("member_type", &pn->member_type(), t); }, false);
+            impl::Warehouse<Type> w1; w1.push_back(*t); w1.push_back(*ts[1]);
+            auto* pr = &lex.get_product(w1); add_node("get_product" + tag, pr, Category_code::Product, [pr, t, u = ts[1]](Ck& c) { c.eq("size", (long long)pr->size(), 2); if (pr->size() == 2) { c.same("operator[]", &(*pr)[0], t); c.same("operator[]", &(*pr)[1], u); } }, false);
+            auto* sm = &lex.get_sum(w1); add_node("get_sum" + tag, sm, Category_code::Sum, [sm, t, u = ts[1]](Ck& c) { c.eq("size", (long long)sm->size(), 2); if (sm->size() == 2) { c.same("operator[]", &(*sm)[0], t); c.same("operator[]", &(*sm)[1], u); } }, false);
+            auto* fn = &lex.get_function(src, *t); add_node("get_function(target)" + tag, fn, Category_code::Function, [fn, sp = &src, t](Ck& c) { c.same("source", &fn->source(), sp); c.same("target", &fn->target(), t); }, false);
+            auto* fa = &lex.get_forall(*pr, *t); add_node("get_forall" + tag, fa, Category_code::Forall, [fa, pr, t](Ck& c) { c.same("source", &fa->source(), pr); c.same("target", &fa->target(), t); }, false);
+            auto* cv = &lex.get_conversion(*t); add_node("get_conversion" + tag, cv, Category_code::Conversion, [cv, t](Ck& c) { c.same("target", &cv->target(), t); }, false);
+            auto* ct = &lex.get_ctor_name(*t); add_node("get_ctor_name" + tag, ct, Category_code::Ctor_name, [ct, t](Ck& c) { c.same("object_type", &ct->object_type(), t); }, false);
+            auto* dt = &lex.get_dtor_name(*t); add_node("get_dtor_name" + tag, dt, Category_code::Dtor_name, [dt, t](Ck& c) { c.same("object_type", &dt->object_type(), t); }, false);
+            auto* lt = &lex.get_literal(*t, sp7); add_node("get_literal" + tag, lt, Category_code::Literal, [lt, t, s = &sp7](Ck& c) { c.type_is(*lt, *t, "given"); c.same("string", &lt->string(), s); }, false);
+            auto* sy = &lex.get_symbol(*P.idents[3], *t); add_node("get_symbol" + tag, sy, Category_code::Symbol, [sy, t, nm = P.idents[3]](Ck& c) { c.type_is(*sy, *t, "given"); c.same("name", &sy->name(), static_cast<const Name*>(nm)); }, false);
+            ++twin_requests;
+         }
+      }
+   }
    // spellings that are prefixes of one another, through every spelling-keyed constructor
    {
       const char* sp[] = { "ab", "abc", "a", "ab", "abd", "", "abc" };
